@@ -22,9 +22,9 @@ const refNameAnnot = "org.opencontainers.image.ref.name"
 type State struct {
 	DirExists bool
 	// oci-layout
-	Marker     string // ok | missing | empty | partial | badversion
-	MarkerRaw  string
-	MarkerOK   bool
+	Marker    string // ok | missing | empty | partial | badversion
+	MarkerRaw string
+	MarkerOK  bool
 	// index.json
 	Index    string // ok | missing | incomplete | invalid
 	IndexErr string
@@ -33,7 +33,7 @@ type State struct {
 	Untagged map[string]bool   // digests of entries without ref.name
 	Entries  int
 	// blobs/<alg>/<hex>
-	Files    map[string]bool   // digest -> content hashes to the name
+	Files    map[string]bool // digest -> content hashes to the name
 	FileSize map[string]int64
 	TmpFiles int
 	Other    []string // unexpected names under blobs/
